@@ -54,7 +54,7 @@ func runC14(c *Check) {
 	mu := la.canon(fieldID(muF))
 	nacc := 0
 	for _, a := range la.Accesses(tags) {
-		fn := a.Ins.Parent()
+		fn := HomeFn(a.Ins.Parent())
 		if fn == ctor {
 			continue
 		}
@@ -476,12 +476,24 @@ func c14Hashers(c *Check, P string) {
 		})
 		c.Report(onlyPayload && nread >= 1, P+".O4", "HASH-PAYLOAD-ONLY", inner, inner.Pos(), name, "the key depends on the payload only (equal payloads give equal keys)")
 		cps := CallsTo(inner, "io.CopyN")
+		var cpDst, cpSrc, cpLim ssa.Value
+		if len(cps) > 0 {
+			cpDst, cpSrc, cpLim = cps[0].Common().Args[0], cps[0].Common().Args[1], cps[0].Common().Args[2]
+		} else {
+			// io.Copy(dst, io.LimitReader(src, n)) is what io.CopyN does
+			for _, cl := range CallsTo(inner, "io.Copy") {
+				if lr, ok := firstOrigin(unwrapIface(cl.Common().Args[1])).(*ssa.Call); ok && CalleeName(lr) == "io.LimitReader" {
+					cps = append(cps, cl)
+					cpDst, cpSrc, cpLim = cl.Common().Args[0], lr.Call.Args[0], lr.Call.Args[1]
+				}
+			}
+		}
 		if !c.Floor(P+".O4", name+": io.CopyN", len(cps), 1) {
 			continue
 		}
 		cp := cps[0]
 		// limit: max(readLimit, minimum)
-		lim := Origins(cp.Common().Args[2])
+		lim := Origins(cpLim)
 		okLim, hasParam, hasMin := true, false, false
 		for _, o := range lim {
 			if p, ok := o.(*ssa.Parameter); ok && p.Parent() == outer {
@@ -516,14 +528,14 @@ func c14Hashers(c *Check, P string) {
 		}
 		c.Report(okLim && hasParam && hasMin && okClamp, P+".O4", "HASH-READ-LIMIT", inner, cp.Pos(), name, "CopyN reads max(readLimit, MessageHasherReadLimitMinimum) bytes")
 		// reader: bytes.NewReader(payload)
-		rd, ok := firstOrigin(unwrapIface(cp.Common().Args[1])).(*ssa.Call)
+		rd, ok := firstOrigin(unwrapIface(cpSrc)).(*ssa.Call)
 		okRd := ok && CalleeName(rd) == "bytes.NewReader" && AllOrigins(rd.Call.Args[0], func(v ssa.Value) bool {
 			f := LoadedField(v)
 			return f != nil && f.Name() == "Payload"
 		})
 		c.Report(okRd, P+".O4", "HASH-READS-PAYLOAD", inner, cp.Pos(), name, "the hashed bytes are the payload")
 		// fresh hash per message; the returned key is its Sum(nil)
-		hv, ok := firstOrigin(cp.Common().Args[0]).(*ssa.Call)
+		hv, ok := firstOrigin(cpDst).(*ssa.Call)
 		want := map[string]string{"NewMessageHasherAdler32": "hash/adler32.New", "NewMessageHasherSHA256": "crypto/sha256.New"}[name]
 		okH := ok && CalleeName(hv) == want && hv.Parent() == inner
 		c.Report(okH, P+".O4", "HASH-FRESH-STATE", inner, cp.Pos(), name, "a fresh "+want+"() state is used per message")
@@ -533,7 +545,7 @@ func c14Hashers(c *Check, P string) {
 			for _, v := range vals {
 				isDigest := false
 				if cv, isCv := v.(*ssa.Convert); isCv {
-					if s, isS := cv.X.(*ssa.Call); isS && s.Call.IsInvoke() && s.Call.Method.Name() == "Sum" && sameValue(s.Call.Value, cp.Common().Args[0]) && IsNilConst(s.Call.Args[0]) {
+					if s, isS := cv.X.(*ssa.Call); isS && s.Call.IsInvoke() && s.Call.Method.Name() == "Sum" && sameValue(s.Call.Value, cpDst) && IsNilConst(s.Call.Args[0]) {
 						okSum = true
 						isDigest = true
 					}
